@@ -543,3 +543,75 @@ def metadata_filter(ctx, res):
     if n < 2:
         raise AnalysisError("expression.metadata definitions not found")
     res.floor(3)
+
+
+# ---------------------------------------------------------------------------
+# C15.undefined-metadata-none: what MetadataFilter relies on in C
+
+@rule("C15.undefined-metadata-none", ["C15"],
+      "CTrait attribute lookup turns a missing attribute into None for every "
+      "name that is not __dunder__: is_dunder_name tests exactly the "
+      "characters 0, 1, n-2 and n-1 for '_' (a conjunction), and "
+      "trait_getattro clears the error and returns None otherwise")
+def undefined_metadata_none(ctx, res):
+    import re
+    from ..cfacts import CREL, get_cfacts
+    from .cstore import paths_of
+    facts = get_cfacts(ctx)
+    ps, _, _ = paths_of(ctx, "is_dunder_name")
+    deciding = [p for p in ps if p.outcome[0] == "RETURN"
+                and p.outcome[1] not in ("-1", "0", "1")]
+    res.instance("is_dunder_name", facts.loc(facts.func("is_dunder_name")),
+                 paths=len(ps))
+    if len(deciding) != 1:
+        raise AnalysisError(f"is_dunder_name: {len(deciding)} deciding paths "
+                            f"(expected one conjunction)")
+    p = deciding[0]
+    reads = [it for it in p.trace if it[0] == "call"
+             and it[1] in ("PyUnicode_READ", "PyUnicode_READ_CHAR",
+                           "PyUnicode_ReadChar")]
+    lens = {it[3] for it in p.trace if it[0] == "call"
+            and it[1] in ("PyUnicode_GET_LENGTH", "PyUnicode_GetLength")}
+
+    def normidx(t):
+        for L in sorted(lens, key=len, reverse=True):
+            t = t.replace(L, "n")
+        return t.replace(" ", "").strip("()")
+    idx = sorted(normidx(it[2][-1]) for it in reads)
+    want = sorted(["0", "1", "n-2", "n-1"])
+    txt = p.outcome[1]
+    res.oblige(idx == want, "is_dunder_name:positions",
+               facts.loc(facts.func("is_dunder_name")),
+               f"is_dunder_name reads the characters at {idx}; a __dunder__ "
+               f"name is one whose characters 0, 1, n-2 and n-1 are all '_' "
+               f"(with {idx} a name like `_tag__` is treated as special and "
+               f"`+_tag__` raises AttributeError instead of matching)")
+    res.oblige("||" not in txt and txt.count("95 ==") + txt.count("== 95")
+               == 4 and re.search(r">= [24]\)", txt) is not None,
+               "is_dunder_name:conjunction",
+               facts.loc(facts.func("is_dunder_name")),
+               f"the test is not the conjunction of four comparisons with "
+               f"'_' and a length bound: `{txt[:120]}`")
+    # trait_getattro: non-dunder -> clear and None
+    ps, _, _ = paths_of(ctx, "trait_getattro")
+    res.instance("trait_getattro", facts.loc(facts.func("trait_getattro")),
+                 paths=len(ps))
+    n_none = 0
+    bad = None
+    for p in ps:
+        a = {t[1]: t[2] for t in p.trace if t[0] == "atom"}
+        dunder = a.get("is_dunder_name(name)")
+        if dunder is False:
+            n_none += 1
+            cleared = any(t[0] == "call" and t[1] == "PyErr_Clear"
+                          for t in p.trace)
+            if not (cleared and p.outcome == ("RETURN", "&_Py_NoneStruct")):
+                bad = p
+    if n_none == 0:
+        raise AnalysisError("trait_getattro: non-dunder path not found")
+    res.oblige(bad is None, "trait_getattro:none-for-undefined",
+               facts.loc(facts.func("trait_getattro")),
+               "for a name that is not __dunder__ a failed lookup must clear "
+               "the AttributeError and return None (undefined metadata reads "
+               "as None; MetadataFilter depends on it)")
+    res.floor(2)
